@@ -80,5 +80,23 @@ def replay_file(data, reader, blocked):
     return False, 'ended', None
 
 
+def replay_diagnostics(data):
+    import contextlib
+    from cardutil import mciipm
+    from cardutil.cli import mci_ipm_to_csv
+
+    def run():
+        info = mciipm.ipm_info(io.BytesIO(data))
+        with contextlib.redirect_stdout(io.StringIO()):
+            mci_ipm_to_csv.print_check_details(info)
+    try:
+        _watchdog(run)
+    except TimeoutError:
+        return True, 'diagnostics did not return within 5 s', 'C07/hang'
+    except Exception as e:
+        return True, 'ipm_info + print_check_details raised %s: %s' % (type(e).__name__, e), 'C07/cli-diagnostics'
+    return False, 'printed', None
+
+
 def replay_noop():
     return False, 'syntactic', None
